@@ -458,7 +458,10 @@ def h_range(lens, step):
                 lens, A, B, step, res['positions'], res['stops'], want), payload
         return False, 'native result agrees (%s)' % res['positions'], payload
     tw = [('a non-empty selection', n > 0)] if total > 0 else [('the empty array', n == 0)]
-    if sum(1 for x in lens if x > 0) >= 2:
+    owner = [k for k, x in enumerate(lens) for _ in range(x)]          # partition of every position
+    stride = 1 if step == KNONE else abs(step)
+    if any(owner[a] != owner[b] and (b - a) % stride == 0 for a in range(len(owner)) for b in range(a + 1, len(owner))):
+        # (only where one slice with this step can reach two partitions at all: lengths (1, 1) with step 2 cannot)
         tw.append(('selection spans more than one partition', z3.Or([z3.And(pushes[i][0], pushes[j][0]) for i in range(len(pushes)) for j in range(i + 1, len(pushes))] + [z3.BoolVal(False)])))
     small = lambda v: z3.Or(v == KNONE, z3.And(v >= -total - 2, v <= total + 2))
     return mdischarge(m, 'PartitionedArray::getitem_range lens=%s step=%s' % (','.join(map(str, lens)), 'None' if step == KNONE else step), obls, tw, replay=replay,
